@@ -189,7 +189,7 @@ class Frame:
 class State:
     def __init__(s):
         s.frames = []; s.pages = {}; s.sym = {}; s.pc = []; s.heap = 0x7000_0000_0000; s.allocs = {}
-        s.events = []; s.nins = 0; s.retval = None; s.ranges = {}; s.wlog = None; s.extra = {}; s.aver = 0
+        s.events = []; s.nins = 0; s.retval = None; s.ranges = {}; s.wlog = None; s.extra = {}; s.aver = 0; s.gseen = 0
     def fork(s):
         n = State.__new__(State)
         n.frames = []
@@ -198,6 +198,7 @@ class State:
             n.frames.append(g)
         n.pages = {k: bytearray(v) for k, v in s.pages.items()}
         n.sym = dict(s.sym); n.pc = list(s.pc); n.heap = s.heap; n.allocs = dict(s.allocs); n.events = list(s.events); n.nins = s.nins; n.retval = None
+        n.gseen = getattr(s, 'gseen', 0)
         n.aver = s.aver; n.ranges = dict(s.ranges); n.wlog = None if s.wlog is None else list(s.wlog); n.extra = copy.deepcopy(s.extra)
         return n
 
@@ -211,7 +212,7 @@ class Exec:
         self.gaddr = {}     # IR globals not present in the snapshot get addresses here
         self.gnext = 0x6000_0000_0000
         self.faddr = {}; self.addr2f = {}
-        self.ginit = []; self.gimg = State()
+        self.ginit = []; self.gimg = State(); self.glog = []      # glog: (address, size) of every IR-only global materialised so far, in order
         self.int_range = (-64, 64)
         self.check_mem = True
         self.fcount = {}
@@ -415,9 +416,12 @@ class Exec:
             a = (self.gnext + 15) & ~15; self.gnext = a + 64; self.gaddr[name] = a
             cm = self.check_mem; self.check_mem = False
             try:
+                if st is not None and st is not self.gimg: self.sync_globals(st)
                 for tgt in ((self.gimg, st) if st is not None and st is not self.gimg else (self.gimg,)):
                     self.write_bytes(tgt, a, bytes(16) + name[4:].encode() + b'\0')
                     self.store(tgt, a + 8, IntTy(64), a + 16)
+                self.glog.append((a, 64))
+                if st is not None and st is not self.gimg: st.gseen = len(self.glog)
             finally: self.check_mem = cm
             return a
         if name in self.m.funcs or name in self.m.decls or name not in self.m.globals:
@@ -430,16 +434,32 @@ class Exec:
         self.gaddr[name] = a
         self.ginit.append((a, ty, init))
         return a
+    def sync_globals(self, st):
+        """a state that copied a page of the global image before a later global was materialised on it (by another path) gets that global's bytes now"""
+        k = getattr(st, 'gseen', 0)
+        if k >= len(self.glog) or st is self.gimg: return
+        for a, n in self.glog[k:]:
+            for pn in range(a >> 12, ((a + max(n, 1) - 1) >> 12) + 1):
+                pg = st.pages.get(pn); gi = self.gimg.pages.get(pn)
+                if pg is None or gi is None: continue
+                lo = max(a, pn << 12) - (pn << 12); hi = min(a + n, (pn + 1) << 12) - (pn << 12)
+                pg[lo:hi] = gi[lo:hi]
+            for c in [c for c in self.gimg.sym if a <= c < a + n]: st.sym[c] = self.gimg.sym[c]
+        st.gseen = len(self.glog)
     def flush_ginit(self, st):
         # initialisers of IR-only globals go to an image shared by all states (a state that already copied the page gets the bytes too)
+        self.sync_globals(st)
+        done = []
         while self.ginit:
-            a, ty, init = self.ginit.pop()
+            a, ty, init = self.ginit.pop(); done.append((a, self.m.sizeof(ty)))
             cm = self.check_mem; self.check_mem = False
             try:
                 for tgt in ([self.gimg, st] if ((a >> 12) in st.pages or ((a + self.m.sizeof(ty)) >> 12) in st.pages) else [self.gimg]):
                     self.write_bytes(tgt, a, bytes(self.m.sizeof(ty)))
                     if init is not None: self.store_const(tgt, a, ty, init)
             finally: self.check_mem = cm
+        self.glog.extend(done)
+        if st is not self.gimg: st.gseen = len(self.glog)
     def store_const(self, st, a, ty, c):
         ty = self.m.resolve(ty)
         if c[0] == 'zero' or c[0] == 'undef': return
@@ -638,6 +658,7 @@ class Exec:
     def goto(self, st, fr, tgt):
         fr.prev = fr.blk; fr.blk = tgt; fr.ip = 0; self.enter(st, fr)
     def run_path(self, st, work):
+        self.sync_globals(st)
         while True:
             try:
                 return self._run_path(st, work)
@@ -1496,5 +1517,10 @@ DEFAULT_EXT.update({SC + '5c_strEv': ext_str_cstr, SC + '4dataEv': ext_str_cstr,
                     '_ZStltIcSt11char_traitsIcESaIcEEbRKNSt7__cxx1112basic_stringIT_T0_T1_EES8_': ext_str_lt,
                     '_ZNSaIcEC1Ev': ext_noop, '_ZNSaIcED1Ev': ext_noop, '_ZNSaIcEC2Ev': ext_noop, '_ZNSaIcED2Ev': ext_noop})
 
+def ext_str_plus_cstr_str(ex, st, fr, a, ins): _str_init(ex, st, a[0], _cstr_at(ex, st, a[1]) + _str_bytes(ex, st, a[2])); return None
+def ext_str_plus_str_cstr(ex, st, fr, a, ins): _str_init(ex, st, a[0], _str_bytes(ex, st, a[1]) + _cstr_at(ex, st, a[2])); return None
+def ext_str_plus_str_str(ex, st, fr, a, ins): _str_init(ex, st, a[0], _str_bytes(ex, st, a[1]) + _str_bytes(ex, st, a[2])); return None
+DEFAULT_EXT.update({'_ZStplIcSt11char_traitsIcESaIcEENSt7__cxx1112basic_stringIT_T0_T1_EEPKS5_RKS8_': ext_str_plus_cstr_str, '_ZStplIcSt11char_traitsIcESaIcEENSt7__cxx1112basic_stringIT_T0_T1_EEOS8_PKS5_': ext_str_plus_str_cstr,
+                    '_ZStplIcSt11char_traitsIcESaIcEENSt7__cxx1112basic_stringIT_T0_T1_EERKS8_PKS5_': ext_str_plus_str_cstr, '_ZStplIcSt11char_traitsIcESaIcEENSt7__cxx1112basic_stringIT_T0_T1_EERKS8_SA_': ext_str_plus_str_str})
 for _n in ('_ZNSt8bad_castD2Ev', '_ZNSt8bad_castD1Ev', '_ZNSt8bad_castD0Ev', '_ZNSt9exceptionD2Ev', '_ZNSt9exceptionD1Ev', '_ZNSt9exceptionD0Ev', '_ZNSt13runtime_errorD2Ev', '_ZNSt11logic_errorD2Ev'):
     DEFAULT_EXT[_n] = ext_noop
